@@ -429,6 +429,43 @@ class _Reader(object):
         return getattr(self.real, name)
 
 
+class _BinReader(object):
+    """binary file whose reads may come back short (legal for pipes, sockets, network mounts): at most
+    fs.short_read_max bytes per read() call.  sheXer reads plain files in text mode, line by line, so on the shipped
+    code this wrapper is never constructed."""
+
+    def __init__(self, fs, real):
+        self.fs = fs
+        self.real = real
+
+    def __enter__(self):
+        return self
+
+    def __exit__(self, *a):
+        self.real.close()
+
+    def read(self, n=-1):
+        cap = self.fs.short_read_max
+        if cap and (n is None or n < 0 or n > cap):
+            self.fs.sim.probes["short_reads"] += 1
+            n = cap
+        return self.real.read(n)
+
+    def readinto(self, b):
+        cap = self.fs.short_read_max
+        if cap and len(b) > cap:
+            data = self.real.read(cap)
+            b[:len(data)] = data
+            return len(data)
+        return self.real.readinto(b)
+
+    def __iter__(self):
+        return iter(self.real)
+
+    def __getattr__(self, name):
+        return getattr(self.real, name)
+
+
 class _Writer(object):
     def __init__(self, fs, real, path):
         self.fs = fs
@@ -491,6 +528,7 @@ class SimFS(object):
         self._cv = threading.Condition()
         self._arrivals = 0
         self.sim = sim
+        self.short_read_max = 0        # > 0: binary reads through the seam return at most that many bytes
         self.read_fault_left = -1      # n >= 0: fail when n more lines have been delivered
         self.read_errno = "EIO"
         self.read_open_fault = None    # (k, errno name): the k-th open for reading from now fails
@@ -514,6 +552,8 @@ class SimFS(object):
         real = builtins.open(path, mode, *a, **k)
         if "r" in mode and "b" not in mode:
             return _Reader(self, real, path)
+        if "r" in mode and "b" in mode and self.short_read_max:
+            return _BinReader(self, real)
         return real
 
     def open_for_write(self, path, mode="r", *a, **k):
